@@ -291,6 +291,9 @@ class DIP:
         # Parse nodes
         while len(queue.nodes):
             node = queue.nodes.pop()
+            # Close cases that ended at the indent of this line
+            if node.keyword!='empty':
+                target.branching.close_branches(node)
             # Perform specific node parsing only outside of case or inside of valid case
             if not target.branching.false_case() or node.keyword=='case':
                 node.inject_value(target)
@@ -360,6 +363,9 @@ class DIP:
         # Parse nodes
         while len(queue.nodes):
             node = queue.nodes.pop()
+            # Close cases that ended at the indent of this line
+            if node.keyword!='empty':
+                target.branching.close_branches(node)
             # Perform specific node parsing
             node.inject_value(target)
             parsed = node.parse(target)
